@@ -66,6 +66,17 @@ class Scenario:
     # INSTRUCTION event of the caller inside joblib/parallel.py (lock not held), deliver completions: how = -1 all parked,
     # else parked[how % len]
     instr: tuple = ()
+    # further oracle-only features (not in the Lean model):
+    between: tuple = ()        # between[k]: parked indices completed between call k-1 and call k (k = len(calls): after the last)
+    abort_deliver: tuple = ()  # parked indices completed while backend.abort_everything() is running (each abort)
+    midpull_close: tuple = ()  # (call_no, j): the consumer closes the generator while a callback delivered at a consumer
+    #                            pause is inside its j-th pull from the input iterable
+    probe_wait: bool = False   # evaluate Parallel._wait_retrieval() at every bytecode of completion callbacks delivered
+    #                            while the caller sleeps in the retrieval loop (what the caller would see if it ran there)
+
+    def oracle_only(self):
+        return bool(self.instr or self.between or self.abort_deliver or self.midpull_close or self.probe_wait
+                    or any(6 in c.cons for c in self.calls))
 
     def tokens(self):
         """Flat integer encoding for the Lean driver."""
@@ -86,7 +97,9 @@ class Scenario:
                     pd_expr=self.pd_expr, ra=self.ra, timeout=self.timeout, managed=self.managed,
                     abort_drops=self.abort_drops,
                     calls=[dict(n=c.n, fail=list(c.fail), iterfail=c.iterfail, cons=list(c.cons)) for c in self.calls],
-                    sched=[list(e) for e in self.sched], instr=[list(e) for e in self.instr])
+                    sched=[list(e) for e in self.sched], instr=[list(e) for e in self.instr],
+                    between=[list(e) for e in self.between], abort_deliver=list(self.abort_deliver),
+                    midpull_close=list(self.midpull_close), probe_wait=self.probe_wait)
 
     @staticmethod
     def from_json(d):
@@ -94,7 +107,9 @@ class Scenario:
                         pd_expr=d.get("pd_expr", ""), ra=d["ra"], timeout=d["timeout"], managed=d["managed"],
                         abort_drops=d["abort_drops"],
                         calls=tuple(Call(c["n"], tuple(c["fail"]), c["iterfail"], tuple(c["cons"])) for c in d["calls"]),
-                        sched=tuple(tuple(e) for e in d["sched"]), instr=tuple(tuple(e) for e in d.get("instr", ())))
+                        sched=tuple(tuple(e) for e in d["sched"]), instr=tuple(tuple(e) for e in d.get("instr", ())),
+                        between=tuple(tuple(e) for e in d.get("between", ())), abort_deliver=tuple(d.get("abort_deliver", ())),
+                        midpull_close=tuple(d.get("midpull_close", ())), probe_wait=bool(d.get("probe_wait", False)))
 
 
 # ---------------------------------------------------------------- the run
@@ -112,7 +127,21 @@ class _FakeTime:
 
     def sleep(self, _dt):
         self.now += 1
-        self.run.hook("sleep")
+        r = self.run
+        r.first_sleep_at.setdefault(r.cur_call, len(r.log))
+        before = len(r.log)
+        had_parked = any(p[3] == r.cur_call for p in r.parked)
+        r.sleeping = True
+        try:
+            r.hook("sleep")
+        finally:
+            r.sleeping = False
+        if any(e.startswith("complete") for e in r.log[before:]) or not had_parked:
+            r.idle_run = 0
+        else:
+            r.idle_run += 1
+            c = r.cur_call
+            r.max_idle_with_parked[c] = max(r.max_idle_with_parked.get(c, 0), r.idle_run)
 
 
 class Run:
@@ -137,6 +166,18 @@ class Run:
         self.instr = dict(sc.instr)
         self.par = None
         self.instr_fired = []
+        self.sleeping = False
+        self.at_pause = False
+        self.cur_gen = None
+        self.cb_pulls_at_pause = 0
+        self.early_exit_seen = []   # (execs so far, where) : _wait_retrieval() false while a callback is mid-way
+        self.n_exec = 0
+        self.idle_run = 0
+        self.max_idle_with_parked = {}
+        self.exited = False
+        self._in_probe = False
+        self.midpull_closed = False
+        self.first_sleep_at = {}
 
     def ev(self, s):
         self.log.append(s)
@@ -228,12 +269,16 @@ class Run:
 
             def abort_everything(self, ensure_ready=True):
                 run.ev(f"abort {int(bool(ensure_ready))}")
+                for idx in sc.abort_deliver:
+                    if run.parked:
+                        run.deliver(idx % len(run.parked))
                 if sc.abort_drops:
                     run.parked.clear()
 
         def task(tid, fails):
             run.exec_count[tid] = run.exec_count.get(tid, 0) + 1
             run.ev(f"exec {tid}")
+            run.n_exec += 1
             if fails:
                 raise TaskBoom(tid)
             return tid
@@ -248,6 +293,13 @@ class Run:
                         run.ev("pull-raise" + (" @cb" if run.in_cb else ""))
                         raise IterBoom(base + i)
                     run.ev(f"pull {base + i}" + (" @cb" if run.in_cb else ""))
+                    if run.in_cb and run.at_pause and sc.midpull_close and sc.midpull_close[0] == call_no:
+                        run.cb_pulls_at_pause += 1
+                        if run.cb_pulls_at_pause == sc.midpull_close[1] and run.cur_gen is not None:
+                            run.ev("close-during-pull")
+                            run.cur_gen.close()
+                            run.ev("closed")
+                            run.midpull_closed = True
                     run.pulled_by_call.setdefault(call_no, []).append(base + i)
                 finally:
                     run.in_next = False
@@ -259,7 +311,7 @@ class Run:
         ft = _FakeTime(self)
         saved_time = jp.time
         jp.time = ft
-        mon_on = self._monitor_start(jp) if (sc.instr or self.count_instr) else None
+        mon_on = self._monitor_start(jp) if (sc.instr or self.count_instr or sc.probe_wait) else None
         self.outcomes = []
         try:
             with warnings.catch_warnings():
@@ -279,7 +331,10 @@ class Run:
                 base = 0
                 try:
                     for cno, call in enumerate(sc.calls):
+                        self._between(cno)
                         self.cur_call = cno
+                        self.idle_run = 0
+                        self.midpull_closed = False
                         self.ev(f"call {cno}")
                         self.run_call(par, cno, base, call, src)
                         base += call.n
@@ -288,7 +343,8 @@ class Run:
                     self.ev("hang")
                     self.outcomes.append(("hang",))
                     return self
-                if sc.managed:
+                self._between(len(sc.calls))
+                if sc.managed and not self.exited:
                     par.__exit__(None, None, None)
                     self.ev("exit")
         finally:
@@ -296,6 +352,13 @@ class Run:
             if mon_on:
                 self._monitor_stop(mon_on)
         return self
+
+    def _between(self, k):
+        if k < len(self.sc.between) and self.sc.between[k]:
+            self.ev("between")
+            for idx in self.sc.between[k]:
+                if self.parked:
+                    self.deliver(idx % len(self.parked))
 
     count_instr = False
     MONITORED = ("_start", "dispatch_one_batch", "_retrieve", "_wait_retrieval", "_get_outputs", "__call__",
@@ -313,9 +376,28 @@ class Run:
         codes = [getattr(jp.Parallel, n).__code__ for n in self.MONITORED if hasattr(jp.Parallel, n)]
         codes += [getattr(jp.BatchCompletionCallBack, n).__code__ for n in ("get_status", "get_result", "_return_or_raise")]
         codeset = set(codes)
+        cb_codes = []
+        if self.sc.probe_wait:
+            cb_codes = [getattr(jp.BatchCompletionCallBack, n).__code__ for n in
+                        ("__call__", "_dispatch_new", "_retrieve_result", "_register_outcome")]
+            cb_codes += [getattr(jp.Parallel, n).__code__ for n in ("dispatch_next", "dispatch_one_batch", "_dispatch", "_register_new_job")]
+        cbset = set(cb_codes)
 
         def on_instr(code, off):
-            if code not in codeset or self.in_cb or self.par is None:
+            if self._in_probe or self.par is None:
+                return
+            if self.in_cb:
+                if self.sleeping and code in cbset and not self.par._aborting:
+                    self._in_probe = True
+                    try:
+                        if not self.par._wait_retrieval():
+                            self.early_exit_seen.append((len(self.log), self.cur_call, code.co_name, off))
+                    except Exception:  # noqa: BLE001
+                        pass
+                    finally:
+                        self._in_probe = False
+                return
+            if code not in codeset:
                 return
             lock = getattr(self.par, "_lock", None)
             if lock is not None and lock._is_owned():
@@ -333,6 +415,7 @@ class Run:
                 self.deliver(how % len(self.parked))
 
         mon.register_callback(tool, mon.events.INSTRUCTION, on_instr)
+        codes = list(set(codes) | cbset)
         for c in codes:
             mon.set_local_events(tool, c, mon.events.INSTRUCTION)
         return (mon, tool, codes)
@@ -360,6 +443,7 @@ class Run:
             return
         got = []
         g = out
+        self.cur_gen = g
         ops = list(call.cons)
         closed = False
         try:
@@ -381,6 +465,7 @@ class Run:
                     break
                 elif op == 3:
                     wr = weakref.ref(g)
+                    self.cur_gen = None
                     del g
                     out = None
                     gc.collect()
@@ -404,7 +489,19 @@ class Run:
                     except BaseException as e:  # noqa: BLE001
                         self.ev("recall-raise " + _exc_name(e))
                 elif op == 5:
-                    self.hook("pause")
+                    self.at_pause = True
+                    try:
+                        self.hook("pause")
+                    finally:
+                        self.at_pause = False
+                    if self.midpull_closed:
+                        closed = True
+                        break
+                elif op == 6:
+                    if self.sc.managed and not self.exited:
+                        par.__exit__(None, None, None)
+                        self.exited = True
+                        self.ev("exit")
         except HangDetected:
             raise
         except BaseException as e:  # noqa: BLE001
